@@ -160,11 +160,13 @@ def hermitian_h0(rng, cx):
     return Q, d
 
 
-def direct_calls(rng, p, nonherm):
+def direct_calls(rng, p, nonherm, conj_pair=False):
+    """conj_pair: a REAL, non-symmetric h_0 with a complex-conjugate pair of explicit levels alpha +- i
+    (complex biorthogonal eigenvectors (1, -+i), (1, -+i)/2 of a rotation-like 2x2 part)."""
     from pymablock.block_diagonalization import solve_sylvester_direct
     from scipy import sparse
 
-    cx = rng.random() < 0.5
+    cx = rng.random() < 0.5 and not conj_pair
     if nonherm:
         d = rng.choice([4, 5])
         M = np.eye(d, dtype=complex if cx else float)
@@ -178,9 +180,13 @@ def direct_calls(rng, p, nonherm):
     else:
         Q, d = hermitian_h0(rng, cx)
         Rall = Lall = Q
-    nexp = rng.choice([1, 2, 3])
+    nexp = rng.choice([2, 3]) if conj_pair else rng.choice([1, 2, 3])
     # spectrum: explicit levels (degeneracies allowed inside a block), implicit levels disjoint
     pool = [-4, -2, -1, 0, 1, 2, 3, 4]
+    if conj_pair:
+        # |alpha +- i - lambda|^2 = delta^2 + 1 in {2, 5, 10}: every denominator divides the snapping grid
+        alpha = rng.choice([-1, 0, 1])
+        pool = [alpha + dl for dl in (-3, -2, -1, 1, 2, 3)]
     rng.shuffle(pool)
     nb = rng.choice([1, 2]) if nexp > 1 else 1
     cut = sorted(rng.sample(range(1, nexp), nb - 1)) if nb > 1 else []
@@ -195,7 +201,20 @@ def direct_calls(rng, p, nonherm):
     rest = pool[used:]
     for s in range(nexp, d):
         lam[s] = rng.choice(rest)
+    if conj_pair:
+        lam = lam.astype(complex)
+        lam[0], lam[1] = alpha + 1j, alpha - 1j
+        T = np.eye(d, dtype=complex)
+        T[:2, :2] = [[1, 1], [-1j, 1j]]
+        Ti = np.eye(d, dtype=complex)
+        Ti[:2, :2] = [[0.5, 0.5j], [0.5, -0.5j]]
+        Rall = Rall.astype(complex) @ T
+        Lall = (Ti @ Lall.conj().T).conj().T
     h0 = Rall @ np.diag(lam) @ Lall.conj().T
+    if conj_pair:
+        if np.abs(h0.imag).max() != 0:
+            raise MachineryError("conjugate-pair h_0 is not real")
+        h0 = np.ascontiguousarray(h0.real)
     h0s = sparse.csr_array(h0)
     eigvecs = []
     for blk in blocks:
@@ -232,7 +251,8 @@ def direct_calls(rng, p, nonherm):
         calls.append(dict(EMPTY, kind=kind, E=energies_res(E, p), Y=red_exact_any(Y, p),
                           V=red_snapped(V, p, den, tol), h0=red_snapped(h0, p, 2 ** 12, 1e-12),
                           R=red_exact_any(Rexp, p), L=red_exact_any(Lexp, p),
-                          what=f"direct/{'nonherm' if nonherm else 'herm'} {kind} block={b} d={d} "
+                          what=f"direct/{'nonherm' if nonherm else 'herm'}{'/conj_pair real h0' if conj_pair else ''} "
+                               f"{kind} block={b} d={d} "
                                f"lam={[complex(v) for v in lam]} blocks={blocks}"))
     return calls
 
@@ -446,6 +466,7 @@ GENERATORS = {
     "diag_sympy": lambda rng, p: diag_calls(rng, p, "sympy"),
     "direct_herm": lambda rng, p: direct_calls(rng, p, False),
     "direct_nonherm": lambda rng, p: direct_calls(rng, p, True),
+    "direct_conj_pair": lambda rng, p: direct_calls(rng, p, True, conj_pair=True),
     "green": green_calls,
     "kpm": kpm_calls,
 }
